@@ -562,6 +562,8 @@ func (e *c10Env) invalidInputs(sc cases.ScanCase, repo *gitrepo.Repo, ri int, on
 	for i, kv := range [][3]string{
 		{"sizer.threshold", "abc", ""}, {"sizer.names", "foo", ""}, {"sizer.jsonVersion", "7", "--json"}, {"sizer.jsonVersion", "x", "--json"},
 		{"sizer.progress", "maybe", "-"}, {"refgroup.bad.includeRegexp", "(", ""}, {"refgroup.empty.name", "no rules", ""},
+		// Cli!InvalidThr / InvalidNames: an empty or blank-padded value is not "unset" and not trimmed
+		{"sizer.threshold", "", ""}, {"sizer.threshold", " 5", ""}, {"sizer.names", "", ""}, {"sizer.names", " full", ""},
 	} {
 		kv := kv
 		args := []string{"--no-progress"}
